@@ -34,7 +34,7 @@ RULE = (
 FAULT_KEYS = ["locus_subset_empty", "policy_uniform", "policy_sticky", "policy_starve_writer", "policy_starve_main", "policy_eager_main", "policy_last_first", "schedule_choices", "multi_core_runs", "cores_gt_loci", "locus_order", "locus_subset", "region_single", "prior_work", "proc_rng_init",
               "clock_jump", "small_stdout_buffer", "buffer_full_write", "failing_locus_injected", "failing_locus_real", "failing_locus_io_error", "fork_unflushed"]
 PROBE_KEYS = ["runs_total", "multi_core_runs", "failing_locus_in_worker", "failing_locus_single_core", "empty_block", "records_compared",
-              "header_compared", "torn_tail_on_failure", "library_fits", "library_histories", "programs_assemble", "programs_call", "programs_call_exact", "programs_call_pedigree"]
+              "header_compared", "torn_tail_on_failure", "library_fits", "library_histories", "library_fresh_process_baselines", "programs_assemble", "programs_call", "programs_call_exact", "programs_call_pedigree"]
 OPTIONAL_PROBES = {"quick": ("torn_tail_on_failure",), "thorough": ()}
 COMPONENTS = {
     "real": ["mchap.application.{assemble,call,call_exact,call_pedigree}.program.cli / run_stdout / _run_stdout_multi_core / _worker / _writer / call_locus (compiled, JIT on)",
@@ -104,9 +104,12 @@ def child_init(config):
 def gen_config(rng, tier, index=0):
     if rng.random() < 0.08:
         # library histories: "traces of repeated .fit() calls interleaved with other work in one process"
-        return {"program": "library", "sampler": rng.choice(["assemble", "call", "call", "pedigree"]), "data_seed": rng.randrange(2 ** 31),
+        return {"program": "library", "sampler": rng.choice(["assemble", "assemble", "call", "call", "pedigree"]), "data_seed": rng.randrange(2 ** 31),
                 "mcmc_seed": rng.choice([0, 1, 11, 42, 12345, 2 ** 31 - 1]), "chains": rng.choice([1, 2]), "steps": rng.choice([20, 40]),
-                "histories": [rng.choice(["construct_early", "refit", "construct_early", "two_models"]) for _ in range(rng.choice([2, 3]))]}
+                "histories": [rng.choice(["construct_early", "refit", "construct_early", "two_models"]) for _ in range(rng.choice([2, 3]))],
+                # the first fit EVER made in this process with these reads is one with other counts / inbreeding; judged against the
+                # same fit made in a fresh (forked) process, whose module state nothing has touched
+                "donor_first": rng.random() < 0.8}
     program = rng.choice(PROGRAMS)
     use_simple = rng.random() < 0.3
     n_var = rng.randint(3, 6)
@@ -326,6 +329,36 @@ class Batch:
         self.ctx.counters.inc("prior_work")
 
 
+def in_fresh_process(fn):
+    """fn() evaluated in a forked copy of this process (module-level state as it is NOW; whatever fn leaves behind is discarded)."""
+    import pickle
+    r, w = os.pipe()
+    pid = os.fork()
+    if pid == 0:
+        code = 0
+        try:
+            os.close(r)
+            try:
+                data = pickle.dumps(("ok", fn()))
+            except BaseException as e:  # noqa
+                data = pickle.dumps(("err", "%s: %s" % (type(e).__name__, e)))
+            with os.fdopen(w, "wb") as f:
+                f.write(data)
+        except BaseException:  # noqa
+            code = 1
+        os._exit(code)
+    os.close(w)
+    with os.fdopen(r, "rb") as f:
+        data = f.read()
+    os.waitpid(pid, 0)
+    if not data:
+        raise HarnessError("fresh-process evaluation returned nothing")
+    kind, val = pickle.loads(data)
+    if kind == "err":
+        raise HarnessError("fresh-process evaluation failed: " + val)
+    return val
+
+
 def run_library(ctx):
     """The seeded sampler classes as a library: a fit's trace must not depend on what the process did before - other fits, raw
     draws from either generator, the model having been constructed long before it is fitted, or fitted before."""
@@ -394,6 +427,38 @@ def run_library(ctx):
             return a[1] is None and b[1] is None
         return np.array_equal(np.nan_to_num(a[1], nan=-1e300), np.nan_to_num(b[1], nan=-1e300))
 
+    if cfg.get("donor_first"):
+        # two distinct reads that differ at the first site only; seen 30 + 30 times the site is heterozygous, seen 80 + 1 times it
+        # is homozygous beyond any threshold.  The donor (80 + 1, other inbreeding) is the first fit this process ever makes with
+        # these reads; the fit with 30 + 30 that follows must equal the same fit in a process that has never seen the donor.
+        d_reads = np.zeros((2, n_pos, 2))
+        d_reads[:, :, 0], d_reads[:, :, 1] = 0.99, 0.01
+        d_reads[1, 0, 0], d_reads[1, 0, 1] = 0.01, 0.99
+        c_main, c_donor = np.array([30, 30], dtype=np.int64), np.array([80, 1], dtype=np.int64)
+
+        def d_construct(sd, inb):
+            if kind == "assemble":
+                return m["amcmc"].DenovoMCMC(ploidy=4, n_alleles=[2] * n_pos, steps=cfg["steps"], chains=cfg["chains"], random_seed=sd, fix_homozygous=0.9,
+                                             inbreeding=inb, temperatures=(0.3, 1.0))
+            if kind == "call":
+                return m["cclasses"].CallingMCMC(ploidy=4, haplotypes=haps, inbreeding=inb, steps=cfg["steps"], chains=cfg["chains"], random_seed=sd)
+            return construct(sd)
+
+        def d_fit(model, c):
+            if kind == "pedigree":
+                tr = model.fit(sample_reads=np.stack([d_reads, d_reads, d_reads]), sample_read_counts=np.stack([c, c[::-1].copy(), c]))
+            else:
+                tr = model.fit(d_reads.copy(), read_counts=c)
+            return np.array(tr.genotypes), (np.array(tr.llks) if hasattr(tr, "llks") and tr.llks is not None else None)
+
+        fresh = in_fresh_process(lambda: d_fit(d_construct(seed, 0.0), c_main))
+        d_fit(d_construct(t.int(0, 10 ** 6), 0.3), c_donor)
+        got = d_fit(d_construct(seed, 0.0), c_main)
+        ctx.counters.inc("library_fresh_process_baselines")
+        ctx.log.add("library_donor_first", kind, int(got[0].sum()))
+        if not same(got, fresh):
+            raise Violation("fit_depends_on_history", "%s sampler, seed %r: a fit made after another model was fitted to the same distinct reads with other counts / inbreeding "
+                            "differs from the same fit made in a fresh process" % (kind, seed), step=0, detail={"sampler": kind, "history": "donor_first", "seed": seed})
     base = fit(construct(seed))
     ctx.counters.inc("library_fits")
     for hi, h in enumerate(cfg["histories"]):
